@@ -94,6 +94,7 @@ type IPCPStateMachine struct {
 	config     IPCPConfig
 	negotiated IPCPNegotiatedOptions
 	sessionID  string // For IP pool allocation
+	poolIP     bool   // config.PeerIP was taken from config.IPPool (and must go back with it)
 
 	// Counters
 	restartCount   int
@@ -183,6 +184,7 @@ func (ipcp *IPCPStateMachine) Up() {
 	if ipcp.config.PeerIP == nil && ipcp.config.IPPool != nil {
 		ipcp.config.PeerIP = ipcp.config.IPPool.Allocate(ipcp.sessionID)
 		ipcp.negotiated.PeerIP = ipcp.config.PeerIP
+		ipcp.poolIP = ipcp.config.PeerIP != nil
 		ipcp.logger.Debug("Allocated IP for peer",
 			zap.String("ip", ipcp.config.PeerIP.String()),
 		)
@@ -208,6 +210,13 @@ func (ipcp *IPCPStateMachine) Down() {
 	// Release allocated IP
 	if ipcp.config.IPPool != nil && ipcp.negotiated.PeerIP != nil {
 		ipcp.config.IPPool.Release(ipcp.sessionID)
+		if ipcp.poolIP {
+			// The address is the pool's again: forget it, so that the next Up
+			// allocates afresh instead of negotiating an address we no longer own
+			ipcp.config.PeerIP = nil
+			ipcp.negotiated.PeerIP = nil
+			ipcp.poolIP = false
+		}
 	}
 
 	switch ipcp.state {
